@@ -226,6 +226,36 @@ Theorem naddr_time_monotone s a t ops : naddr_is_deleted_asof s a = Some t ->
   exists t', naddr_is_deleted_asof (c_run ops s) a = Some t' /\ t <= t'.
 Proof. intros H. destruct (markers_only_grow ops s) as [_ M]. apply M. exact H. Qed.
 
+(* C11: an event covered by an accepted address deletion is refused for ever *)
+Definition addr_of (e : aevent) : option addr :=
+  if is_replaceable (e_kind e) then Some (mkAddr (e_kind e) (e_pk e) [])
+  else if is_param_replaceable (e_kind e) then
+    match d_of e with Some d => Some (mkAddr (e_kind e) (e_pk e) d) | None => None end
+  else None.
+
+Lemma store_refused_when_covered s e a t : addr_of e = Some a -> when_naddr_deleted (committed s) a = Some t -> e_created e <= t ->
+  (snd (store_event s e) = Err EDup \/ snd (store_event s e) = Err EDeleted) /\ fst (store_event s e) = s.
+Proof.
+  intros Ha Hw Hc. unfold store_event, pre_checks.
+  destruct (t_get (t_i (committed s)) (e_id e)); [split; [left; reflexivity|reflexivity]|].
+  destruct (is_deleted (committed s) (e_id e)); [split; [right; reflexivity|reflexivity]|].
+  unfold addr_of in Ha. destruct (is_replaceable (e_kind e)) eqn:Er.
+  - injection Ha as <-. rewrite Hw. replace (e_created e <=? t) with true by (symmetry; apply N.leb_le; exact Hc).
+    cbn [andb]. split; [right; reflexivity|reflexivity].
+  - cbn [andb]. destruct (is_param_replaceable (e_kind e)) eqn:Ep; [|discriminate].
+    destruct (d_of e) as [d|]; [|discriminate]. injection Ha as <-. rewrite Hw.
+    replace (e_created e <=? t) with true by (symmetry; apply N.leb_le; exact Hc).
+    cbn [andb]. split; [right; reflexivity|reflexivity].
+Qed.
+
+Theorem covered_event_refused_forever s a t ops e : naddr_is_deleted_asof s a = Some t -> addr_of e = Some a -> e_created e <= t ->
+  let s' := c_run ops s in
+  (snd (store_event s' e) = Err EDup \/ snd (store_event s' e) = Err EDeleted) /\ fst (store_event s' e) = s'.
+Proof.
+  intros Hd Ha Hc s'. destruct (naddr_time_monotone s a t ops Hd) as [t' [Ht' Hle]].
+  apply (store_refused_when_covered s' e a t' Ha Ht'). lia.
+Qed.
+
 (* ---------- C18: remove_event removes exactly its target ---------- *)
 Theorem remove_event_exact_concrete s id s' : id_inv s -> remove_event s id = (s', Ok tt) ->
   get_event_by_id s' id = Ok None /\ has_event s' id = false /\
